@@ -175,7 +175,56 @@ def type_cases(run, models):
                      f"{type(e).__name__}: {str(e)[:120]}", {"tag": tag, "untyped_argument": untyped})
             continue
           _check_declared(run, hist, tag, m, res, untyped)
+    n += nontensor_boundary_cases(run, hist)
     return n, dict(hist)
+
+
+def nontensor_boundary_cases(run, hist):
+    """Sequence- and Optional-typed inputs of m are type-checked like tensors: another element type, a tensor for a sequence (and the
+    reverse), a sequence for an optional must raise TypeError; arguments of the declared types are accepted and the declared (sequence /
+    optional) output types are carried.  Returns the number of calls."""
+    import spox.opset.ai.onnx.v17 as op17
+    from spox import Optional as SOptional, Sequence as SSequence
+
+    n = 0
+    seq_f = SSequence(B.Tensor(F32, (None,)))
+    xs, k = B.argument(seq_f), B.argument(B.Tensor(np.int64, ()))
+    m_seq = B.build({"xs": xs, "k": k}, {"y": op17.concat_from_sequence(xs, axis=0), "z": op17.sequence_at(xs, k), "s": op17.sequence_insert(xs, op17.sequence_at(xs, k))})
+    ox = B.argument(SOptional(B.Tensor(F32, (2,))))
+    m_opt = B.build({"o": ox}, {"h": op17.optional_has_element(ox), "o2": op17.identity(ox)})
+    a, i = B.argument(B.Tensor(F32, (3,))), B.argument(B.Tensor(np.int64, (3,)))
+    good_seq, int_seq = op17.sequence_construct([a, a]), op17.sequence_construct([i, i])
+    kk = op17.const(np.array(1, np.int64))
+    good_opt = op17.optional(B.argument(B.Tensor(F32, (2,))))
+    calls = [("seq/declared", m_seq, (good_seq, kk), True), ("seq/other-element-type", m_seq, (int_seq, kk), False),
+             ("seq/tensor-for-sequence", m_seq, (a, kk), False), ("seq/sequence-for-tensor", m_seq, (good_seq, good_seq), False),
+             ("opt/declared", m_opt, (good_opt,), True), ("opt/other-element-type", m_opt, (op17.optional(i),), False),
+             ("opt/sequence-for-optional", m_opt, (good_seq,), False), ("opt/tensor-for-optional", m_opt, (a,), False)]
+    for what, m, args, ok in calls:
+        n += 1
+        try:
+            with warnings.catch_warnings():
+                warnings.simplefilter("ignore")
+                res = B.inline(m)(*args)
+            if not ok:
+                hist["accepted"] += 1
+                run.fail("impl", f"C08/incompatible-argument-accepted/{what.split('/')[0]}", f"inline(m): {what}: an argument whose type cannot match the declared "
+                         "input type was accepted instead of raising TypeError", {"variant": what})
+                continue
+            want = [B.render_onnx_type(o.type) for o in m.graph.output]
+            got = [B.render_spox_type(v.type) for v in res.values()]
+            if [w.replace("N", "?") for w in want] != got and want != got:
+                run.fail("impl", "C08/output-types", f"inline(m) ({what}): declared output types {want} but the returned Vars have {got}", {"variant": what})
+            else:
+                hist["declared-types-carried/" + what.split("/")[0]] += 1
+        except TypeError as e:
+            if ok:
+                run.fail("impl", f"C08/call-rejected/{what}", f"inline(m)(arguments of the declared types) raised TypeError: {str(e)[:120]}", {"variant": what})
+            else:
+                hist["TypeError/" + what.split("/")[0]] += 1
+        except Exception as e:  # noqa: BLE001
+            run.fail("impl", "C08/bind-wrong-exception", f"{what}: raised {type(e).__name__} instead of TypeError: {str(e)[:100]}", {"variant": what})
+    return n
 
 
 def _untyped_var(x):
